@@ -9,6 +9,9 @@
 //!                                   each recovery all clones have overlapping requests in flight against a slow replier
 //!   rqreuse <n>                     a request times out, every requestor stream of the topic closes, a new requestor
 //!                                   opens and calls; the replier then sends the late reply before the new one (n rounds)
+//!   rqstagger <clones> <outages>    like rqcut, but nobody re-establishes itself beforehand: after each cut the clones call 60 ms
+//!                                   apart against a slow replier, so that one clone notices the loss and recovers while
+//!                                   another clone's re-issued request is in flight
 //!   rqlate <n>                      a request times out; the same requestor (odd rounds: a clone) calls again at once; the
 //!                                   replier sends the late reply to the first just before the reply to the second (n rounds)
 //!   rqstall <n> <kib>               a replier that registers and then never reads; a requestor (400 ms timeout) issues n
@@ -183,6 +186,36 @@ async fn run_cut(addr: SocketAddr, certs: &Certs, clones: usize, outages: usize)
     Ok(outs.join(","))
 }
 
+async fn run_stagger(addr: SocketAddr, certs: &Certs, clones: usize, outages: usize) -> anyhow::Result<String> {
+    let topic = format!("/verif/rpc{}", TOPIC.fetch_add(1, Ordering::SeqCst));
+    let rep = scripted_replier(addr, certs, &topic, Duration::from_millis(300), false).await?;
+    tokio::time::sleep(Duration::from_millis(30)).await;
+    let client = client(addr, certs, BackoffStrategy::constant().with_max_attempts(5).with_step(Duration::from_millis(20))).await?;
+    let rq = client.requestor(&topic).with_request_encoder(StringCodec).with_reply_decoder(StringCodec).with_request_timeout(2500u64)?.open().await?;
+    // every clone has used the first stream once
+    for c in 0..clones { let mut r = rq.clone(); let _ = tokio::time::timeout(Duration::from_secs(5), r.request(format!("w.{c}"))).await; }
+    let mut outs = vec![];
+    let held: Vec<_> = (0..clones).map(|_| rq.clone()).collect();
+    let mut held = held;
+    for k in 1..=outages {
+        client.verif_close_connection().await;
+        let mut calls = vec![];
+        for (c, r) in held.drain(..).enumerate() {
+            let mut r = r;
+            let own = format!("q{k}.{c}");
+            calls.push(tokio::spawn(async move { let res = tokio::time::timeout(Duration::from_secs(8), r.request(own.clone())).await; (own, res, r) }));
+            tokio::time::sleep(Duration::from_millis(60)).await;
+        }
+        for c in calls {
+            let (own, res, r) = c.await?;
+            outs.push(match res { Err(_) => "hang".to_string(), Ok(x) => outcome(&x, &own) });
+            held.push(r);
+        }
+    }
+    rep.abort();
+    Ok(outs.join(","))
+}
+
 async fn run_late(addr: SocketAddr, certs: &Certs, rounds: usize) -> anyhow::Result<String> {
     let mut outs = vec![];
     for k in 0..rounds {
@@ -279,6 +312,7 @@ pub fn run(cfg: &Cfg) {
         cases.push("rqcut 2 2".into());
         cases.push("rqreuse 2".into());
         cases.push("rqlate 2".into());
+        cases.push("rqstagger 3 2".into());
         cases.push("rqstall 3 1".into());
         cases.push("rqstall 8 900".into());
         if cfg.tier == Tier::Thorough { cases.push("rqcut 6 3".into()); cases.push("rqreuse 6".into()); }
@@ -287,12 +321,13 @@ pub fn run(cfg: &Cfg) {
     }
     for c in &cases {
         let t: Vec<&str> = c.split(' ').collect();
-        if t[0] == "rqcut" || t[0] == "rqreuse" || t[0] == "rqstall" || t[0] == "rqlate" {
+        if t[0] == "rqcut" || t[0] == "rqreuse" || t[0] == "rqstall" || t[0] == "rqlate" || t[0] == "rqstagger" {
             let res = rt.block_on(async {
                 tokio::time::timeout(Duration::from_secs(90), async {
                     if t[0] == "rqcut" { run_cut(addr, &certs, t[1].parse()?, t[2].parse()?).await }
                     else if t[0] == "rqstall" { run_stall(addr, &certs, t[1].parse()?, t[2].parse()?).await }
                     else if t[0] == "rqlate" { run_late(addr, &certs, t[1].parse()?).await }
+                    else if t[0] == "rqstagger" { run_stagger(addr, &certs, t[1].parse()?, t[2].parse()?).await }
                     else { run_reuse(addr, &certs, t[1].parse()?).await }
                 }).await
             });
